@@ -183,7 +183,7 @@ pub fn classify_child(code: Option<i32>, signal: Option<i32>, stdout: &str, stde
         Some((_, c, n, o)) => (c.clone(), n.clone(), *o),
         None => return ChildOutcome::HarnessError(format!("child died (code {:?}, signal {:?}) before any call into iTree: {}", code, signal, stderr_tail)),
     };
-    let opkind = info.steps.last().map(|s| s.op.kind()).unwrap_or("?");
+    let opkind = info.steps.last().map(|s| s.op.kind()).unwrap_or("new");
     if info.in_control {
         return ChildOutcome::Inconclusive(format!("{}::{} died ({}) in a control run without any injected fault", coll, callname, class));
     }
